@@ -156,7 +156,7 @@ func (r *Run) Note(s string) {
 	r.mu.Unlock()
 }
 
-const maxDistinctPerShard = 3_000_000
+const maxDistinctPerShard = 500_000
 
 // Nontrivial records a non-trivial case by its identifying bytes.
 func (r *Run) Nontrivial(parts ...string) {
